@@ -19,7 +19,7 @@ func init() {
 	register(&Prop{
 		ID:         "C12",
 		Title:      "Numbers behave as exact decimals, not floats or strings",
-		Decided:    "the representation of numbers, which is fixed by types and by the library routines number strings flow through (a 38-digit decimal cannot survive float64): (R1) a census of every lossy site on the numeric path – fields of binary floating-point type that hold number objects, parses of attribute numerals into float64, float formatting back into numerals, float arithmetic and float comparison on number objects; (R2) the rendering of an N-typed key attribute must pass through a canonicalising function (numerically equal numerals → equal key text); (R3) key lists holding N- or B-typed sort keys must be ordered by a typed comparator, not by sort.Strings on the text rendering; (R4) numbers not targeted by an update are not rewritten (= C07.R6). Every site found today is a known finding (the library represents numbers as float64 by construction); the check reports any new lossy site or any known site that changes; (R5) SET stores a copy of a number operand (= C07.R11): in-place arithmetic on the source attribute does not reach it.",
+		Decided:    "the representation of numbers, which is fixed by types and by the library routines number strings flow through (a 38-digit decimal cannot survive float64): (R1) a census of every lossy site on the numeric path – fields of binary floating-point type that hold number objects, parses of attribute numerals into float64, float formatting back into numerals, float arithmetic and float comparison on number objects; (R2) the rendering of an N-typed key attribute must pass through a canonicalising function (numerically equal numerals → equal key text); (R3) key lists holding N- or B-typed sort keys must be ordered by a typed comparator, not by sort.Strings on the text rendering; (R4) numbers not targeted by an update are not rewritten (= C07.R6). Every site found today is a known finding (the library represents numbers as float64 by construction); the check reports any new lossy site or any known site that changes; (R5) SET stores a copy of a number operand (= C07.R11): in-place arithmetic on the source attribute does not reach it; (R6) number objects carry their value and nothing else (no remembered numeral).",
 		NotDecided: "everything value-level: rounding, the 38-digit limit, exponent range, results of arithmetic.",
 		Rules: []RuleDef{
 			{ID: "R1", Desc: "census of lossy numeric sites (taint on SSA + type census)", Run: c12R1},
@@ -33,6 +33,7 @@ func init() {
 				}
 			}},
 			{ID: "R5", Desc: "a number stored by SET is a copy of its operand: arithmetic that works in place on the source (ADD) does not change the stored value (= C07.R11)", Run: aliasRule("R5", c07R11, nil)},
+			{ID: "R6", Desc: "a number object is its value: no second representation (the numeral it was read from, a cached text) that equality or arithmetic would have to keep in step (T-FIELD closure)", Run: func(e *Engine) { stateModelClosed(e, "R6", func(k string) bool { return k == "lang.Number" || k == "lang.NumberSet" }) }},
 		},
 	})
 }
